@@ -218,7 +218,7 @@ func checkC10(raw json.RawMessage) (ev.Result, error) {
 		{Op: "probe", Thread: 0, Probes: probes},
 		{Op: "sleep", N: c.DelayUs},
 	}}
-	if c.DelayUs > 0 && !c.Divergent && !c.EnosysFault && !c.EinvalLog {
+	if c.DelayUs > 0 && !c.Divergent && !c.EnosysFault && !c.EinvalLog && !c.PriorRefused {
 		job.Steps[2] = kjob.Step{Op: "sleep", N: c.DelayUs}
 	}
 	ro := kchild.RunOpts{Strace: c.Strace, Timeout: 45e9, Uid: c.Uid, GOARCH: c.GOARCH, HideSysctl: c.HideSysctl && !c.Strace && c.Uid == 0 && !c.Unlocked}
@@ -269,7 +269,7 @@ func checkC10(raw json.RawMessage) (ev.Result, error) {
 	}
 	if c.PriorRefused {
 		if pl := rr.Find(2, "load"); len(pl) != 1 || pl[0].Nil || !strings.Contains(pl[0].Err, "invalid argument") {
-			return res, ev.Inconclusivef("the earlier oversize load was not refused with EINVAL")
+			return res, ev.Inconclusivef("the earlier oversize load was not refused with EINVAL: %+v", pl)
 		}
 		res.Classes = append(res.Classes, "earlier-thread-sync-load-refused-with-EINVAL")
 	}
